@@ -123,6 +123,10 @@ CALLS = {
     'als_vld': lambda: (teneva.als, (I0.copy(), y0.copy(), tt(seed=9)), dict(nswp=2, info={}, I_vld=I0[:9].copy(), y_vld=y0[:9].copy(), e_vld=1e-3)),
     'als_adapt': lambda: (teneva.als, (I0.copy(), y0.copy(), tt(r=1, seed=9)), dict(nswp=2, info={}, r=3)),
     'als_adapt_sparse': lambda: (teneva.als, (I_SP.copy(), Y_SP.copy(), teneva.rand([4, 4, 4], 1, seed=2)), dict(nswp=2, info={}, r=3)),
+    # n_max given: equal to the mode size of the initial tensor (nothing to pad), larger, and a result fed back in
+    'als_func_nmax_eq': lambda: (teneva.als_func, (X0.copy(), yX.copy(), tt([3, 3, 3], 2, 4)), dict(nswp=2, info={}, n_max=3)),
+    'als_func_nmax': lambda: (teneva.als_func, (X0.copy(), yX.copy(), tt([2, 2, 2], 2, 4)), dict(nswp=2, info={}, n_max=4)),
+    'als_func_nmax_again': lambda: (teneva.als_func, (X0.copy(), yX.copy(), teneva.als_func(X0.copy(), yX.copy(), tt([2, 2, 2], 2, 4), nswp=1, info={}, n_max=4)), dict(nswp=1, info={}, n_max=4)),
     'als_func': lambda: (teneva.als_func, (X0.copy(), yX.copy(), tt([3, 3, 3], 2, 4)), dict(nswp=2, info={})),
     'als_func_nolamb': lambda: (teneva.als_func, (X0.copy(), yX.copy(), tt([2, 2, 2], 2, 4)), dict(nswp=2, info={}, lamb=None)),
     'als_func_vld': lambda: (teneva.als_func, (X0.copy(), yX.copy(), tt([3, 3, 3], 2, 4)), dict(nswp=2, info={}, X_vld=X0[:5].copy(), y_vld=yX[:5].copy())),
@@ -151,6 +155,8 @@ CALLS = {
     'core_tt_to_qtt': lambda: (teneva.core_tt_to_qtt, (T4[1].copy(),), {}),
     'cross': lambda: (teneva.cross, (_f_cross, tt(r=1, seed=8)), dict(nswp=2, info={}, cache={})),
     'cross_vld': lambda: (teneva.cross, (_f_cross, tt(r=1, seed=8)), dict(nswp=2, info={}, I_vld=I0[:9].copy(), y_vld=y0[:9].copy())),
+    'cross_act_dr2': lambda: (teneva.cross_act, (lambda X: X[:, 0] * X[:, 1], [tt(seed=1), tt(seed=2)], tt(r=1, seed=3)), dict(nswp=2, seed=1, dr=2, dr2=1)),
+    'cross_act_dr0': lambda: (teneva.cross_act, (lambda X: X[:, 0] + X[:, 1], [tt(seed=1), tt(seed=2)], tt(r=2, seed=3)), dict(nswp=1, seed=1, dr=0)),
     'cross_act': lambda: (teneva.cross_act, (lambda X: X[:, 0] * X[:, 1], [tt(seed=1), tt(seed=2)], tt(r=1, seed=3)), dict(nswp=2, seed=1)),
     'accuracy_on_data': lambda: (teneva.accuracy_on_data, (tt(), I0.copy(), y0.copy()), {}),
     'accuracy_on_data_tr': lambda: (teneva.accuracy_on_data, (tt(), I0.copy(), y0.copy(), 1e-3), {}),
